@@ -141,6 +141,8 @@ func c13Stmt(kind string, i int) string {
 		return fmt.Sprintf(`print "A%d"`, i)
 	case "printf":
 		return fmt.Sprintf(`printf "B%d;"`, i)
+	case "tofull":
+		return fmt.Sprintf(`print "E%d" > "/dev/full"`, i)
 	case "tofile":
 		return fmt.Sprintf(`print "F%d" > "f1"`, i)
 	case "append":
@@ -230,6 +232,9 @@ loop:
 			emit(fmt.Sprintf("A%d\n", i))
 		case "printf":
 			emit(fmt.Sprintf("B%d;", i))
+		case "tofull":
+			// a stream that accepts data into its buffer and fails every flush
+			m.openOut["/dev/full"] = "full"
 		case "tofile":
 			if _, ok := m.openIn["f1"]; ok {
 				m.err = true
@@ -267,7 +272,13 @@ loop:
 		case "closep":
 			emit(fmt.Sprintf("R%d=%d\n", i, closeOut("cat")))
 		case "fflush":
-			emit(fmt.Sprintf("L%d=0\n", i))
+			if m.openOut["/dev/full"] == "full" {
+				// one stream cannot be flushed: -1 and a message, the others are still flushed
+				m.stderrAny = true
+				emit(fmt.Sprintf("L%d=-1\n", i))
+			} else {
+				emit(fmt.Sprintf("L%d=0\n", i))
+			}
 		case "fflushf":
 			if _, ok := m.openOut["f1"]; ok {
 				emit(fmt.Sprintf("L%d=0\n", i))
@@ -680,7 +691,50 @@ func c13Run(c *core.Ctx) {
 			}
 		}
 	}
+	c13FailingStream(c, bound)
 	c13Faults(c)
+}
+
+// c13FailingStream: one named stream (/dev/full) fails every flush; whatever
+// was printed to the healthy files and commands must still have reached them
+// when a system() child starts, and fflush() reports -1.
+func c13FailingStream(c *core.Ctx, bound int) {
+	if _, err := os.Stat("/dev/full"); err != nil {
+		c.Note("failing_stream_part", "skipped: no /dev/full")
+		return
+	}
+	alpha := []string{"tofile", "append", "pipe1", "print", "fflush", "system"}
+	for n := 1; n <= 3; n++ {
+		idx := make([]int, n)
+		for {
+			seq := make([]string, n)
+			hasSys := false
+			for i, k := range idx {
+				seq[i] = alpha[k]
+				hasSys = hasSys || seq[i] == "system" || seq[i] == "fflush"
+			}
+			if hasSys && !c.Expired() {
+				for pos := 0; pos < n; pos++ {
+					if c.Mine() {
+						ops := append(append(append([]string{}, seq[:pos]...), "tofull"), seq[pos:]...)
+						c13RunSeq(c, ops, bound-1)
+					}
+				}
+			}
+			k := n - 1
+			for k >= 0 {
+				idx[k]++
+				if idx[k] < len(alpha) {
+					break
+				}
+				idx[k] = 0
+				k--
+			}
+			if k < 0 {
+				break
+			}
+		}
+	}
 }
 
 // ---------------------------------------------------------------- D: write failures
